@@ -74,10 +74,10 @@ CHECKS = {
 EXTRA = {
  "C01": " Later additions: containers of 9-300 members and strings up to 9000 bytes in every profile; operations of every kind on members 3-8000 levels down; index tokens beyond the int range (2^32 .. 2^65) as plain out-of-range indices.",
  "C02": " Later additions: wide objects (9-300 members); documents and patches whose interesting part lies 3-8000 levels down; legal whitespace around either text. Member names that differ only by case folding, normalisation, width or a trailing character; member names spelled with escapes around paired and unpaired surrogates, several side by side.",
- "C03": " Later additions: differences (removal, change, addition next to unchanged siblings) 3-8000 levels down; wide objects.",
+ "C03": " Later additions: differences (removal, change, addition next to unchanged siblings) 3-8000 levels down; wide objects. Member names that differ only by case folding, normalisation, width or a trailing character.",
  "C04": " Later additions: chained-nesting-growth - nine chains of moves that grow the nesting to 12000..700000 levels, each run in a child process with Go's default stack limit (known finding F04: the two longest end in a fatal stack overflow); exactly 10001 levels assembled and then copied; wide objects.",
  "C05": " Later additions: wide objects; copies of kilobyte-sized encoder-spelled values followed by edits inside source or copy; operations deep down.",
- "C06": " Later additions: texts whose difference lies 3-8000 levels down; exponents differing in trailing zeros; strings with a backslash before a quote; scalar roots padded with whitespace.",
+ "C06": " Later additions: texts whose difference lies 3-8000 levels down; exponents differing in trailing zeros; strings with a backslash before a quote; scalar roots padded with whitespace. The same member under two names that differ only by case folding, normalisation, width or a trailing character.",
  "C07": " Later additions: patches sharing a path of 3-8000 levels (quick: up to 5001); wide objects. A key space of names that differ only by case folding, normalisation, width or a trailing character.",
  "C08": " Later additions: one options value reused across calls that fail after copying; values holding 10000-20001 brackets inside strings and names, copied and compared.",
  "C09": " Later additions: pool calls that fail inside the encoder (null and scalar roots), patches that add a value with < > & and copy it under both escape settings, 70 KB results; the last twelve results of every entry point are retained and re-checked after every later call. Every third input buffer has spare capacity inside the protected pages (an append to an argument faults); the bytes behind it are compared at the end.",
@@ -88,9 +88,9 @@ EXTRA = {
  "C14": " Later additions: empty tokens, member names made of non-ASCII digits, zero-padded names; an ancestor overwritten between two ensuring adds (8 operations x 4 paths x 2 documents).",
  "C15": " Later additions: indentation of documents nested 3-2500 levels; documents with colliding or duplicate member names (form of the result only); the search for introduced escapes skips escaped backslashes.",
  "C16": " Later additions: array-form CreateMergePatch gates, array and scalar partners for the MergePatch/MergeMergePatches gates (16 gates).",
- "C17": " Later additions: Compact/Indent/HTMLEscape of texts nested 3-2500 levels; values nested more than 1000 pointer/slice/map levels that point into themselves without a cycle; token-and-decode walks; targets decoded into again.",
+ "C17": " Later additions: Compact/Indent/HTMLEscape of texts nested 3-2500 levels; values nested more than 1000 pointer/slice/map levels that point into themselves without a cycle; token-and-decode walks; targets decoded into again. Unpaired surrogate escapes followed directly by another escape or by a complete pair.",
  "C18": " Later additions: the same decoded Patch applied a second time in half of the calls; index tokens beyond the int range; operations deep down; retained results.",
- "C19": " Later additions: strings and names needing escapes through the legacy merge functions; the four functions on documents whose interesting part lies 3-8000 levels down.",
+ "C19": " Later additions: strings and names needing escapes through the legacy merge functions; the four functions on documents whose interesting part lies 3-8000 levels down. Member names that differ only by case folding, normalisation or width, through MergePatch, MergeMergePatches and CreateMergePatch.",
  "C20": " Later additions: 255-513 -p options with the bad file at position 255/256/512; stdin arriving in two to four writes with pauses; patch files followed by stray brackets; same-named files in different directories. Patch files that begin with a byte order mark, NUL, non-JSON white space, a comment line or an XSSI guard.",
 }
 
